@@ -353,13 +353,14 @@ Definition lex_string (q : N) (s : str) : option (str * str) :=
   | [] => None
   end.
 
+Definition leading_zero (ds : str) : bool :=
+  match ds with d :: _ :: _ => d =? 48 | _ => false end.
+
 Definition lex_int (s : str) : option (tok * str) :=
   let (ds, rest) := span is_digit s in
   if hd_is is_word rest || hd_is (N.eqb 46) rest then None            (* 1x, 1.5: not in the language *)
-  else match ds with
-       | 48 :: _ :: _ => None                                            (* leading zero *)
-       | _ => Some (TInt ds, rest)
-       end.
+  else if leading_zero ds then None
+  else Some (TInt ds, rest).
 
 Definition lex_op (c : N) (s' : str) : option (tok * str) :=
   let eq_next := hd_is (N.eqb 61) s' in
@@ -494,14 +495,15 @@ Definition pipeline (v : str) : str := get_expression (stored_value v).
 Definition ident (s : str) : bool :=
   match s with c :: r => is_alpha c && forallb is_word r | [] => false end.
 Definition rp_any (w : str) : bool := rp_form 112 w || rp_form 114 w.
-(* Python keywords other than True / False: None and as assert async await break class continue def del elif else except finally for from global if import in is lambda nonlocal not or pass raise return try while with yield *)
+(* reserved names: eval (eval_reg would take  eval(  for an eval call) and the Python keywords other
+   than True / False: None and as assert async await break class continue def del elif else except finally for from global if import in is lambda nonlocal not or pass raise return try while with yield *)
 Definition py_keywords : list str :=
-  [[78; 111; 110; 101]; [97; 110; 100]; [97; 115]; [97; 115; 115; 101; 114; 116]; [97; 115; 121; 110; 99]; [97; 119; 97; 105; 116]; [98; 114; 101; 97; 107]; [99; 108; 97; 115; 115]; [99; 111; 110; 116; 105; 110; 117; 101]; [100; 101; 102]; [100; 101; 108]; [101; 108; 105; 102]; [101; 108; 115; 101]; [101; 120; 99; 101; 112; 116]; [102; 105; 110; 97; 108; 108; 121]; [102; 111; 114]; [102; 114; 111; 109]; [103; 108; 111; 98; 97; 108]; [105; 102]; [105; 109; 112; 111; 114; 116]; [105; 110]; [105; 115]; [108; 97; 109; 98; 100; 97]; [110; 111; 110; 108; 111; 99; 97; 108]; [110; 111; 116]; [111; 114]; [112; 97; 115; 115]; [114; 97; 105; 115; 101]; [114; 101; 116; 117; 114; 110]; [116; 114; 121]; [119; 104; 105; 108; 101]; [119; 105; 116; 104]; [121; 105; 101; 108; 100]].
+  [[78; 111; 110; 101]; [97; 110; 100]; [97; 115]; [97; 115; 115; 101; 114; 116]; [97; 115; 121; 110; 99]; [97; 119; 97; 105; 116]; [98; 114; 101; 97; 107]; [99; 108; 97; 115; 115]; [99; 111; 110; 116; 105; 110; 117; 101]; [100; 101; 102]; [100; 101; 108]; [101; 108; 105; 102]; [101; 108; 115; 101]; [101; 120; 99; 101; 112; 116]; [102; 105; 110; 97; 108; 108; 121]; [102; 111; 114]; [102; 114; 111; 109]; [103; 108; 111; 98; 97; 108]; [105; 102]; [105; 109; 112; 111; 114; 116]; [105; 110]; [105; 115]; [108; 97; 109; 98; 100; 97]; [110; 111; 110; 108; 111; 99; 97; 108]; [110; 111; 116]; [111; 114]; [112; 97; 115; 115]; [114; 97; 105; 115; 101]; [114; 101; 116; 117; 114; 110]; [116; 114; 121]; [119; 104; 105; 108; 101]; [119; 105; 116; 104]; [121; 105; 101; 108; 100]; [101; 118; 97; 108]].
 (* identifiers, field names, attribute names: ASCII identifier, not r<digits> / p<digits>, not a keyword *)
 Definition good_name (s : str) : bool :=
   ident s && negb (rp_any s) && negb (mem str_eqb s py_keywords).
 Definition digits_ok (ds : str) : bool :=
-  nonempty ds && forallb is_digit ds && match ds with 48 :: _ :: _ => false | _ => true end.
+  nonempty ds && forallb is_digit ds && negb (leading_zero ds).
 (* characters allowed inside a string literal: printable ASCII except & | ! # double-quote quote
    backslash ( ) *)
 Definition lit_char (c : N) : bool :=
@@ -591,6 +593,21 @@ Definition esc_r (t : tok) : tok :=
 Definition esc_tok (t : tok) : tok := esc_r (esc_p t).
 Definition kw_tok (t : tok) : tok :=
   match t with TAnd => TKAnd | TOr => TKOr | TNot => TKNot | t => t end.
+
+(* the same conditions stated on the AST: every name / literal of the expression is well-formed *)
+Fixpoint names_ok (rs ps : str) (e : expr) : bool :=
+  match e with
+  | EOr a b | EAnd a b | ECmp _ a b => names_ok rs ps a && names_ok rs ps b
+  | ENot a | EPar a => names_ok rs ps a
+  | EIn a items _ => names_ok rs ps a && forallb (names_ok rs ps) items
+  | ECall f args => good_name f && forallb (names_ok rs ps) args
+  | EEval sfx f => str_eqb sfx ps && good_name f
+  | EReq sfx f attrs => str_eqb sfx rs && good_name f && forallb good_name attrs
+  | EPol sfx f => str_eqb sfx ps && good_name f
+  | EVar _ _ => false
+  | EStr dq s => lit_ok dq s
+  | EInt ds => digits_ok ds
+  end.
 
 (* ====================================================================== parser for the Python-side tokens
    or < and < not < comparison (single, not chained) < atom with trailers.  Err ESyntax where
